@@ -46,22 +46,54 @@ static bool SafeChar(unsigned char c) {
 
 // Builds one edge whose inputs (or outputs) are `names`, evaluates "HELPER $var" and checks the
 // shell's view.  Returns index of the first offending name or -1.
-static int CheckBatch(const vector<string>& names, const string& var, const string& helper, Result* r, string* why) {
+static int CheckBatch(const vector<string>& names, const string& var_in, const string& helper, Result* r, string* why) {
+  // var: "in" | "out" | "in_newline"; "<x>@files": the rule also binds depfile / rspfile / dyndep to names built from $<x>,
+  // and they are evaluated (unescaped, as Builder::StartEdge does for the directories and the response file) before the
+  // command is; "rspfile<out" / "depfile<in": the command names $rspfile / $depfile, which the rule binds to $out / $in
+  string fullvar = var_in;
+  string var = fullvar;
+  bool files_first = false;
+  string nested_from;
+  if (fullvar.size() > 6 && fullvar.compare(fullvar.size() - 6, 6, "@files") == 0) { var = fullvar.substr(0, fullvar.size() - 6); files_first = true; }
+  size_t lt = fullvar.find('<');
+  if (lt != string::npos) { var = fullvar.substr(0, lt); nested_from = fullvar.substr(lt + 1); }
   State state;
   Rule* rule = new Rule("r");
   EvalString cmd;
   cmd.AddText(helper + " ");
   cmd.AddSpecial(var);
   rule->AddBinding("command", cmd);
+  if (files_first) {
+    for (const char* b : {"depfile", "rspfile", "dyndep"}) {
+      EvalString v;
+      v.AddSpecial(var == "in_newline" ? "in" : var);
+      v.AddText(string(".") + b);
+      rule->AddBinding(b, v);
+    }
+    EvalString rc;
+    rc.AddSpecial("in_newline");
+    rule->AddBinding("rspfile_content", rc);
+  }
+  if (!nested_from.empty()) {
+    EvalString v;
+    v.AddSpecial(nested_from);
+    rule->AddBinding(var, v);
+  }
   state.bindings_.AddRule(std::unique_ptr<const Rule>(rule));
   Edge* e = state.AddEdge(rule);
   string err;
-  if (var == "out") {
+  if (var == "out" || nested_from == "out") {
     for (auto& n : names) state.AddOut(e, n, 0, &err);
     state.AddIn(e, "\x01other-side", 0);
   } else {
     for (auto& n : names) state.AddIn(e, n, 0);
     state.AddOut(e, "\x01other-side", 0, &err);
+  }
+  if (files_first) {
+    (void)e->GetUnescapedDepfile();
+    (void)e->GetUnescapedRspfile();
+    (void)e->GetUnescapedDyndep();
+    (void)e->GetBinding("rspfile_content");
   }
   string text = e->EvaluateCommand();
   if (var == "in_newline")
@@ -125,7 +157,7 @@ int main(int argc, char** argv) {
   if (a.Has("replay")) {
     string n = vx::Unhex(a.Get("replay"));
     int bad = 0;
-    for (const char* var : {"in", "out", "in_newline"}) {
+    for (const char* var : {"in", "out", "in_newline", "in@files", "out@files", "in_newline@files", "rspfile<out", "depfile<in"}) {
       string why;
       int i = CheckBatch({"a", n, "b"}, var, helper, &r, &why);
       printf("$%s name=%s: %s\n", var, vx::JsonEscape(n).c_str(), i == -1 ? "OK" : ("VIOLATION: " + why).c_str());
@@ -151,7 +183,7 @@ int main(int argc, char** argv) {
   for (size_t i = 0; i < names.size(); i += batch, ++bidx) {
     if ((long)(bidx % nshards) != shard) continue;
     vector<string> b(names.begin() + i, names.begin() + min(names.size(), i + batch));
-    for (const char* var : {"in", "out", "in_newline"}) {
+    for (const char* var : {"in", "out", "in_newline", "in@files", "out@files", "in_newline@files", "rspfile<out", "depfile<in"}) {
       string why;
       int bad = CheckBatch(b, var, helper, &r, &why);
       if (bad != -1) {
